@@ -342,7 +342,7 @@ def check(ctx: Ctx) -> None:
     check_close_all(ctx, "C10.h")
 
     with ctx.obligation("C10.f", "multichannel") as ob:
-        from ..terms import cmp_term, const, evaluator, show
+        from ..terms import cmp_term, const, evaluator, show, subterms as _subterms
         fm = repo.func("multi.MultiChannel.make_receive_queue")
         evm = evaluator(repo, fm, Oracle(repo, fm, precise=True))
         heads = {n.id for n in evm.cfg.nodes if n.kind in ("test", "for") and isinstance(n.owner, (ast.While, ast.For))}
@@ -375,6 +375,21 @@ def check(ctx: Ctx) -> None:
                     continue
                 nset += 1
                 E = e.recv
+                # every member gets its callback: no condition on the member itself (closed / empty / ...) may stand between the loop and
+                # setcallback -- a member that already ended still holds its items and end marker, which only setcallback's drain delivers
+                def about_member(t):
+                    if E in set(_subterms(t)):
+                        return True
+                    for x in _subterms(t):
+                        if isinstance(x, tuple) and x and x[0] == "fresh":
+                            mk = [c_ for c_ in st.events if c_.kind == "call" and c_.result == x]
+                            if mk and (mk[0].recv == E or E in mk[0].args):
+                                return True
+                    return False
+                if E is not None and any(about_member(t) for (t, _v) in st.cond[:e.ncond]):
+                    ob.violation(fm, e.node, "a member channel is given its callback only under a condition on that member: for a member the condition excludes "
+                                             "(e.g. one that is already closed) the queued items and the requested endmarker never reach the receive queue",
+                                 construct="member-conditional setcallback")
                 if not (E is not None and E[0] == "elem" and E[1] == CHS):
                     ob.violation(fm, e.node, "setcallback is not applied to the loop's channel with the per-channel closure")
                     continue
